@@ -176,6 +176,28 @@ theorem deriveInput_inj (k₁ k₂ : Bytes) (i₁ i₂ : Nat) (h₁ : k₁.lengt
   have := List.reverse_inj.1 hb
   exact leBytes_inj 4 i₁ i₂ (by simpa [two32] using hi₁) (by simpa [two32] using hi₂) this
 
+/-! ### hex text round trip -/
+
+theorem hexVal_hexDigit : ∀ n : Fin 16, hexVal (hexDigit n.val) = some n.val := by decide
+
+theorem ofHexChars_toHexChars : ∀ (b : Bytes), b.WF → ofHexChars (toHexChars b) = some b
+  | [], _ => rfl
+  | x :: xs, h => by
+    have hx : x < 256 := h x (by simp)
+    have hxs : Bytes.WF xs := fun y hy => h y (by simp [hy])
+    have h1 := hexVal_hexDigit ⟨x / 16, by omega⟩
+    have h2 := hexVal_hexDigit ⟨x % 16, by omega⟩
+    simp only at h1 h2
+    have ih := ofHexChars_toHexChars xs hxs
+    unfold toHexChars at ih ⊢
+    simp only [List.flatMap_cons, List.cons_append, List.nil_append, ofHexChars, h1, h2, ih]
+    simp only [Option.bind_eq_bind, Option.bind_some, Option.pure_def, Option.some.injEq, List.cons.injEq, and_true]
+    omega
+
+theorem hexutil_roundtrip (b : Bytes) (h : b.WF) : hexutilDecode (hexutilEncode b) = some b := by
+  simp only [hexutilEncode, hexutilDecode]
+  exact ofHexChars_toHexChars b h
+
 /-! ### key store glue -/
 
 theorem keyStoreFromEntropy_entropy (C : CryptoFns) (entropy : Bytes) (ks : KeyStore)
